@@ -226,3 +226,53 @@ def r7(c):
 def r8(c):
     from rules import c14
     c14.r3(c)
+
+
+@rule('C10', 'R10.9', 'the error tells what happened: inside a transaction a failed write, a failed read / framing error and a rejected reply each end the transaction with that very error')
+def r9(c):
+    from rules.c11 import NEXT_FRAME, HR
+    P = c.P
+    b = P.fn(EXEC)
+    c.saw(b, len(b.calls()))
+    for nm, callee in (('next_frame', NEXT_FRAME), ('write', 'rodbus::common::phys::PhysLayer::write'), ('format_request', 'rodbus::common::frame::FrameWriter::format_request'), ('handle_response', HR)):
+        for k, cs in enumerate(b.calls(callee)):
+            ok, how, det = q.failure_leaves(b, cs)
+            c.ob('%s#%d/fails-transaction' % (nm, k + 1), ok, 'when %s fails, execute_request returns an error on every path (the failure is not swallowed while the request keeps waiting)' % nm, '%s %s' % (how, det), cs.loc())
+            if ok and how == 'examined':
+                oc = q.outcomes(b, cs)
+                exs = [x for x in q.exits(b) if any(x['node'] in q.reach_from_outcome(b, cs, e, oc) or x['node'] == e for e in oc.get('failure', []))]
+                bad = [x for x in exs if not _is_that_error(b, x, callee)]
+                c.ob('%s#%d/that-error' % (nm, k + 1), bool(exs) and not bad, 'and the error returned is the one %s reported (converted by From)' % nm, str([q.exit_error(b, x) for x in bad])[:200], cs.loc())
+
+
+def _is_that_error(b, x, callee):
+    if x['kind'] == 'call' and x['cs'].is_(q.FROM_RESIDUAL) and x['cs'].args:
+        return q.may_be_error_of(b, x['cs'].args[0], callee)
+    if x['kind'] == 'agg' and x['variant'] == 'Err':
+        return q.may_be_error_of(b, x['rv']['a'][0], callee)
+    return False
+
+
+@rule('C10', 'R10.10', 'a callback handed to the callback API is wrapped into a promise before anything can fail: from then on the Drop backstop (R10.2) owns its completion')
+def r10(c):
+    import inline
+    P = c.P
+    CS = 'rodbus::client::channel::CallbackSession'
+    helpers = {CS + '::read_bits', CS + '::read_registers'}
+    news = tuple(p + '::new' for p in PROMISES)
+    n = 0
+    for v in REQUESTS:
+        f = CS + '::' + API_METHOD[v]
+        b = inline.expand(P, P.fn(f), {h for h in helpers if P.has(h)})
+        c.saw(b, len(b.calls()))
+        pn = [cs for cs in b.calls() if cs.is_(*news)]
+        mine = [cs for cs in pn if cs.args and q.is_name(b, cs.args[0], 'callback')]
+        ok = len(mine) == 1 and not b.in_cycle(mine[0].node)
+        det = '%d promise constructions, %d of the callback' % (len(pn), len(mine))
+        if ok:
+            okp, leak = q.always_passes(b, b.entry, [mine[0].node])
+            ok = okp
+            det += '; %d returns reachable without it' % len(leak)
+        c.ob('callback-owned/%s' % API_METHOD[v], ok, 'every path through CallbackSession::%s first puts the callback into a promise (no early return can drop a bare callback)' % API_METHOD[v], det, loc_of(b))
+        n += 1 if ok else 0
+    c.exact('CallbackSession methods', n, 8)
